@@ -232,3 +232,39 @@ func UndecodableRecordFailsClosed() {
 		vsym.Assert("U1-undecodable-record-not-approved", a.OnSignBeaconProposal(ctx, md(), req) != rules.APPROVED)
 	}
 }
+
+// ExportSeveralKeys: three keys with their own records: every exported entry sits under its own key,
+// names its own key in the PubKey field (the export command builds its file from that field) and
+// states its own values; import of the export into a fresh store reproduces all three.
+func ExportSeveralKeys() {
+	ctx := context.Background()
+	svc := hc.NewRules(ctx, vsym.TempDir("A"))
+	keys := [][48]byte{hc.KeyA, hc.KeyB, hc.KeyC}
+	var S, T, P [3]int64
+	in := map[[48]byte]*rules.SlashingProtection{}
+	for k, key := range keys {
+		S[k], T[k], P[k] = vsym.Int64(fmt.Sprintf("S%d", k)), vsym.Int64(fmt.Sprintf("T%d", k)), vsym.Int64(fmt.Sprintf("P%d", k))
+		vsym.Assume(vsym.And(S[k] >= 0, T[k] >= 0, P[k] >= 0))
+		in[key] = &rules.SlashingProtection{PubKey: append([]byte(nil), key[:]...), HighestAttestedSourceEpoch: S[k], HighestAttestedTargetEpoch: T[k], HighestProposedSlot: P[k]}
+	}
+	hc.Must(svc.ImportSlashingProtection(ctx, in))
+	ex, err := svc.ExportSlashingProtection(ctx)
+	hc.Must(err)
+	vsym.Assert("K0-one-entry-per-key", len(ex) == 3)
+	// the file the export command writes is keyed by the PubKey fields
+	byField := map[[48]byte]*rules.SlashingProtection{}
+	for k, key := range keys {
+		e := ex[key]
+		if e == nil {
+			vsym.Assert("K1-every-key-exported", false)
+			continue
+		}
+		vsym.Reach("entry-exported")
+		vsym.Assert(fmt.Sprintf("K2-entry-names-its-own-key[%d]", k), vsym.BytesEq(e.PubKey, key[:]))
+		vsym.Assert(fmt.Sprintf("K3-entry-states-its-own-values[%d]", k), vsym.And(e.HighestAttestedSourceEpoch == S[k], e.HighestAttestedTargetEpoch == T[k], e.HighestProposedSlot == P[k]))
+		var fk [48]byte
+		copy(fk[:], e.PubKey)
+		byField[fk] = e
+	}
+	vsym.Assert("K4-file-has-one-record-per-key", len(byField) == 3)
+}
